@@ -106,6 +106,7 @@ def run(ctx, repo):
     ctx.rule('R5', 'the unknown-pair guard (key not in table -> None) dominates every table subscript and every may-raise call')
     ctx.rule('R6', 'age path: no undefined names; the factor column selected by find_age is never the text column')
     ctx.rule('R7', 'hurdles remap equals {(F,80H)->100H, (M,80H)->110H, (M,100H)->110H}')
+    ctx.rule('R8', 'no history: the shared coefficient rows are never changed in place (the ESAA option affects only its own call); memos are transparent')
 
     # ---- R1
     table = repo.const(ATH, '_scoring_table')
@@ -138,15 +139,46 @@ def run(ctx, repo):
     ctx.floor('coefficient rows compared', len(want), 48)
     # ESAA override dict inside score()
     over = [n for n in ast.walk(score) if isinstance(n, ast.Dict) and {getattr(k, 'value', None) for k in n.keys} >= {'A', 'Z', 'X'}]
-    if len(over) != 1:
-        raise AnalysisError('score(): expected exactly one override coefficient dict, found %d' % len(over))
-    od = {k.value: v.value for k, v in zip(over[0].keys, over[0].values) if isinstance(v, ast.Constant)}
+    od = None
+    onode = None
+    if len(over) == 1:
+        onode = over[0]
+        od = {k.value: v.value for k, v in zip(over[0].keys, over[0].values) if isinstance(v, ast.Constant)}
+    else:
+        # other spellings: dict(coeffs, A=.., Z=..) / coeffs.update(A=.., Z=..) / {**coeffs, 'A': ..}
+        for n in ast.walk(score):
+            if isinstance(n, ast.Call) and (call_name(n) in ('dict', 'update')) and {k.arg for k in n.keywords} >= {'A', 'Z'}:
+                onode = n
+                od = {k.arg: k.value.value for k in n.keywords if isinstance(k.value, ast.Constant)}
+                od.setdefault('X', SP['esaa_M_800']['X'])      # X is inherited from the row (1.85 for M-800)
+            if isinstance(n, ast.Dict) and None in n.keys and {getattr(k, 'value', None) for k in n.keys if k is not None} >= {'A', 'Z'}:
+                onode = n
+                od = {k.value: v.value for k, v in zip(n.keys, n.values) if k is not None and isinstance(v, ast.Constant)}
+                od.setdefault('X', SP['esaa_M_800']['X'])
     e = SP['esaa_M_800']
-    if all(same(od.get(c), e[c]) for c in 'AZX'):
+    if od is None:
+        ctx.finding('R1', '%s::score::ESAA override' % ATH, ATH, score.lineno,
+                    'no ESAA 800 m override coefficients found in score(): the esaa option has no effect or cannot be checked')
+        onode = score
+    elif all(same(od.get(c), e[c]) for c in 'AZX'):
         ctx.ok('R1', 'ESAA 800 m override = reference')
     else:
-        ctx.finding('R1', '%s::score::ESAA override' % ATH, ATH, over[0].lineno,
+        ctx.finding('R1', '%s::score::ESAA override' % ATH, ATH, onode.lineno,
                     'ESAA 800 m override %s differs from the reference %s' % ({c: od.get(c) for c in 'AZX'}, e))
+    over = [onode]
+    # the option must not leak into other calls: the shared coefficient rows are never changed in place
+    from ..memo import shared_alias_mutations, analyse as memo_analyse
+    from ..props.c19 import module_mutables
+    mm = set(module_mutables(mod)) | {'_scoring_objects', '_scoring_table'}
+    muts = shared_alias_mutations(score, mm) + shared_alias_mutations(mod.func('performance'), mm)
+    for msg, node in muts:
+        ctx.finding('R8', '%s::score::shared coefficient row changed in place' % ATH, ATH, node.lineno,
+                    msg + ' (the ESAA option then applies to ordinary calls too)', 'one esaa=True call, then score("M","800",...)')
+    res, memos = memo_analyse(score, mm)
+    for rule, msg, node in res:
+        ctx.finding('R8', '%s::score::memo %s' % (ATH, rule), ATH, node.lineno, msg)
+    if not muts and not res:
+        ctx.ok('R8', 'score()/performance() never change the shared coefficient rows; no opaque memo')
     # the override applies to M-800 with esaa only
     p = getattr(over[0], '_parent', None)
     while p is not None and not isinstance(p, ast.If):
